@@ -197,11 +197,11 @@ Definition invert (st : sstate) : sstate :=
   mkss (stext st) (if sdir st =? 0 then 1 else 0) (sic st).
 
 (* ---------------------------------------------------------------------- *)
-(* The incremental-search session: main buffer, search field (text; the
-   cursor of the field stays at its end), the SearchState attached to the
-   search control, and whether a search link exists (= the search field has
-   the focus).  [vi]: editing mode; a Vi session is in navigation mode exactly
-   when it is not searching. *)
+(* The incremental-search session: main buffer, the search field (a buffer of
+   its own: text and cursor), the SearchState attached to the search control,
+   and whether a search link exists (= the search field has the focus).
+   [vi]: editing mode; a Vi session is in navigation mode exactly when it is
+   not searching. *)
 Record sess := mksess {
   main : sbuf; field : str; fcur : Z; ss_text : str; ss_dir : Z; ign : bool;
   searching : bool; vi : bool }.
